@@ -51,6 +51,11 @@ def letters():
         ('LD A,I', (0xED, 0x57)),
         ('LD A,R', (0xED, 0x5F)),
         ('LD R,A', (0xED, 0x4F)),
+        # LD R,A with bit 0 of A clear and set: one of the two changes the parity of R (the Python playback loop derives the
+        # M1 count of DD/FD-prefixed instructions from that parity)
+        ('LD A,0;LD R,A', (0x3E, 0x00, 0xED, 0x4F)),
+        ('LD A,1;LD R,A', (0x3E, 0x01, 0xED, 0x4F)),
+        ('LD A,81;LD R,A;LD A,R', (0x3E, 0x81, 0xED, 0x4F, 0xED, 0x5F)),
         ('IN A,(FE)', (0xDB, 0xFE)),
         ('IN r,(C)', (0x01, 0xFE, 0xBF, 0xED, 0x50, 0xED, 0x70)),    # LD BC,BFFE ; IN D,(C) ; IN F,(C)
         ('INI', (0x01, 0xFE, 0x02, 0x21, 0x00, 0x90, 0xED, 0xA2, 0xED, 0xAA)),
